@@ -45,7 +45,7 @@ CLAIMED = {
    technique="Coq model + computed side conditions + parse-back deciders + differential correspondence",
    ref="6 C12"),
  "C13": dict(
-   text="PARTIAL. Proved in Coq: if the stems of u are a prefix of the stems of v then the serialized LRU of u is a string prefix of that of v (the '|' terminator), and cleaning empty path stems distributes over concatenation / is idempotent. That v lies under u exactly when u's cleaned stems are a prefix of v's is decided on all ordered pairs of a universe (3 scheme/port x 11 host chains incl. multi-label and private suffixes x 6 path chains x trailing slash x query / fragment), both directions, both suffix_aware settings, with the extracted model compared on every url; not proved for all urls.",
+   text="PARTIAL. Proved in Coq: for parsed urls, a page with the same scheme and netloc as an ancestor (no userinfo, query or fragment on the ancestor) and a path extending the ancestor's by whole segments has the ancestor's stems as a prefix of its own, for every suffix trie and both suffix_aware settings; if the stems of u are a prefix of the stems of v then the serialized LRU of u is a string prefix of that of v (the '|' terminator), and cleaning empty path stems distributes over concatenation / is idempotent. That v lies under u exactly when u's cleaned stems are a prefix of v's is decided on all ordered pairs of a universe (3 scheme/port x 11 host chains incl. multi-label and private suffixes x 6 path chains x trailing slash x query / fragment), both directions, both suffix_aware settings, with the extracted model compared on every url; not proved for all urls.",
    note="Trusted: as C12.",
    technique="Coq lemmas on stem lists + exhaustive pair decider + differential correspondence",
    ref="6 C13"),
@@ -75,9 +75,9 @@ CLAIMED = {
    technique='Coq model + collision-class decider + differential correspondence',
    ref='6 C03'),
  "C04": dict(
-   text="PARTIAL. Invariance of normalize_url under every documented-irrelevant transformation (alone, plus C02 spellings, tracking items at random positions, all permutations of 2-4 items, '&amp;'), with default options and quoted=True, is decided on the implementation; model correspondence in C05. Proved in Coq: redirection inference is exactly a pre-step (normalize_url(u) = normalize_url(infer_redirection(u), infer_redirection=False) whenever the url parses).",
+   text="PARTIAL. Invariance of normalize_url under every documented-irrelevant transformation (alone, plus C02 spellings, tracking items at random positions, all permutations of 2-4 items, '&amp;'), with default options and quoted=True, is decided on the implementation; model correspondence in C05. Proved in Coq: the order of query items is irrelevant (the query stage — per-item unquoting, filtering, quoting, then sorted() with an injective key — returns the same list for any two orderings of the same items: sorting with a total antisymmetric order forgets the input order); redirection inference is exactly a pre-step (normalize_url(u) = normalize_url(infer_redirection(u), infer_redirection=False) whenever the url parses).",
    note='Trusted: Coq kernel, translator (regex ASTs, query tables, ISO codes, PSL), extraction, driver, harness; urllib / str models (leaf correspondence); idna / ipaddress oracles; platform_aware=True is exercised on the implementation only (the platform parsers are not in the model).',
-   technique='Coq model + pre-step theorem + transformation decider + differential correspondence',
+   technique='Coq model + query-order and pre-step theorems + transformation decider + differential correspondence',
    ref='6 C04'),
  "C05": dict(
    text="Proved in Coq for every url and every option setting: normalize_url never raises (the model's only abnormal outcome is an unanswered oracle question) and an unparseable url (parser or port ValueError) is returned unchanged. PARTIAL: 'each part of the result comes from the input' (host = input host minus whole irrelevant labels / 'amp-', non-default port kept, query a sub-list) and 'an option switched off preserves its part' are decided on the implementation over uniformly sampled option settings; the extracted model is compared with the implementation (string and unsplit=False) on the same cases.",
